@@ -157,6 +157,15 @@ macro_rules! program_impl {
                     }
                     continue;
                 }
+                // discrete results (index vectors, booleans, shapes) must be identical on all backends, also
+                // where the reference model accepts several values (e.g. which of several tied maxima)
+                if let (StepRes::Ok(a), StepRes::Ok(b), StepRes::Ok(d)) = (&rd, &rn, &ra) {
+                    if matches!(a, Val::I(_) | Val::B(_)) {
+                        let sig = format!("{}/{}", name, width::<T>());
+                        c.check(&format!("ndarray:same-as-dense:{}", name), a == b, &format!("ndarray/{}", sig), || format!("step {}: {:?}: dense {} vs ndarray {}", step, op, a.json(), b.json()));
+                        c.check(&format!("nalgebra:same-as-dense:{}", name), a == d, &format!("nalgebra/{}", sig), || format!("step {}: {:?}: dense {} vs nalgebra {}", step, op, a.json(), d.json()));
+                    }
+                }
                 // synchronise: the model takes the dense backend's observed value; every backend's
                 // result object is overwritten entry-wise with it (keeps its memory layout)
                 match rd {
